@@ -1,8 +1,7 @@
 """Reference assembler process: a separate interpreter that assembles each program it is sent
-with a fresh Assembler object.  It sees only successful probe programs, one at a time and in
-whatever order the worker asks, so process-wide residue left by *histories* in the worker
-(failed assemblies, reused Assembler objects, shared operand templates) cannot be present
-here in the same form."""
+with a fresh Assembler object, each in a forked child of the pristine server, so process-wide
+residue left by *histories* (failed assemblies, reused Assembler objects, shared operand
+templates, caches keyed by source text) is absent here by construction."""
 from __future__ import annotations
 
 import json
@@ -25,6 +24,12 @@ for line in sys.stdin:
     if not line:
         continue
     req = json.loads(line)
+    # every request is answered by a forked child of this (pristine) process: what one assembly leaves behind in
+    # process-wide state never meets the next request
+    pid = os.fork()
+    if pid != 0:
+        os.waitpid(pid, 0)
+        continue
     try:
         asm = Assembler()
         if req.get("bases"):
@@ -38,6 +43,7 @@ for line in sys.stdin:
         out = {"ok": False, "err": type(e).__name__, "msg": str(e)[:200]}
     sys.stdout.write(json.dumps(out) + "\n")
     sys.stdout.flush()
+    os._exit(0)
 '''
 
 
